@@ -539,7 +539,21 @@ func C09(c *Ctx) {
 	}
 	// values stored through Extend / Extendm / direct map updates of Bindings in Step and Walk
 	n1, n4 := 0, 0
-	for _, f := range []*ssa.Function{step, walk} {
+	// (and the helpers of package core they build states in)
+	var engineFns []*ssa.Function
+	{
+		seenF := map[*ssa.Function]bool{}
+		for _, root := range []*ssa.Function{step, walk} {
+			for _, f := range pkgClosure(root) {
+				if prog.PkgOf(f) == "core" && !seenF[f] {
+					seenF[f] = true
+					engineFns = append(engineFns, f)
+				}
+			}
+		}
+		sort.Slice(engineFns, func(i, j int) bool { return fname(engineFns[i]) < fname(engineFns[j]) })
+	}
+	for _, f := range engineFns {
 		ssau.Instrs(f, func(in ssa.Instruction) {
 			var recv ssa.Value
 			var vals []ssa.Value
